@@ -140,7 +140,7 @@ impl World {
 
 async fn run_spec(spec: &Spec) -> Out {
 	let mut out = Out::default();
-	let (client0, srv) = jrv::clientsim::client(ClientCfg { string_ids: spec.string_ids, sub_buffer: BUFFER, ..Default::default() });
+	let (client0, srv) = jrv::clientsim::client(ClientCfg { string_ids: spec.string_ids, sub_buffer: BUFFER, build_path: ((spec.seed >> 21) % 4) as u8, ..Default::default() });
 	let mut w = World {
 		client: client0,
 		srv,
